@@ -520,6 +520,24 @@ fn history(t: &mut Tape, rec: &mut Rec<'_>) {
             break;
         }
     }
+    // the edited set written as JSON and read back describes the same policies, templates and links
+    if !rec.failed() {
+        match ps.clone().to_json() {
+            Ok(j) => match PolicySet::from_json_value(j.clone()) {
+                Ok(ps2) => {
+                    rec.label("json-roundtrip");
+                    check_state(&ps2, &model, &reqs, rec, 9999);
+                    if rec.failed() {
+                        log.push(format!("(step 9999 = the set after to_json / from_json_value: {j})"));
+                    }
+                }
+                Err(e) => {
+                    rec.fail("json-roundtrip:rejected", format!("PolicySet::to_json of the edited set is not accepted by from_json_value: {e}\n{j}"));
+                }
+            },
+            Err(e) => rec.label(format!("to_json-error:{}", e.to_string().chars().take(40).collect::<String>())),
+        }
+    }
     rec.label_if(links_ok > 0, "link-ok");
     rec.label_if(failed_ops > 0, "failed-op");
     rec.label_if(reused, "id-reused");
